@@ -274,6 +274,9 @@ def between_comparer(comparer_params_eval, student_eval, utils):
     if not np.isreal(student_eval):
         raise InputTypeError("Input must be real.")
 
+    # A real value can still be typed complex (e.g., 3+0*i), which cannot be ordered
+    student_eval = np.real(student_eval)
+
     return start <= student_eval <= stop
 
 def congruence_comparer(comparer_params_eval, student_eval, utils):
